@@ -701,6 +701,11 @@ class C16(HttpProp):
                             f"http POST av hyph=latest:{u} hyph={u} history b:1,8 xh=dupcid:{L}", "dumpall",
                             f"http POST as hyph=latest:{u} hyph={u} snapshot b:2,8 xh=dupcid:{L}", "dumpall",
                             f"http POST av hyph=latest:{L} hyph={L} history b:1,9 xh=dupcid:{u}", "dumpall", f"http GET snap - hyph={L} absent e xh=dupcid:{u}", "dumpall"]
+            # no X-Client-Id at all, the id offered some other way (Authorization: Bearer): not a request of any client
+            if al not in ("none",):
+                for c in (1, 2, 3):
+                    ops += ["dumpall", f"http GET snap - absent absent e xh=bearer:{c}", "dumpall", f"http GET gcv hyph=nil absent absent e xh=bearer:{c}", "dumpall",
+                            f"http POST av hyph=latest:{c} absent history b:1,{c} xh=bearer:{c}", "dumpall", f"http POST as hyph=latest:{c} absent snapshot b:2,{c} xh=bearer:{c}", "dumpall"]
             # an unlisted client (or the proxy in front of it) claims to be on the server's own host
             if al not in ("none",):
                 for j, xh in enumerate(("xff-loop", "xff-loop2", "xff-v6", "fwd-loop", "fwd-v6", "xri-loop")):
@@ -721,7 +726,13 @@ class C16(HttpProp):
             for c in (1, 2):
                 ops += [f"http@0 POST av hyph=nil hyph={c} history b:1,{c}", f"http@0 POST av hyph=latest:{c} hyph={c} history b:2,{c}",
                         f"http@0 POST as hyph=latest:{c} hyph={c} snapshot b:9,{c}"]
-            ops += ["kill", f"boot listen=flag:1 dir=flag allow={src} versions=default days=default" + (" log=debug" if k % 2 else "")]
+            nl = 1 + k % 3
+            ops += ["kill", f"boot listen={'flag' if k % 2 else 'flags'}:{nl} dir=flag allow={src} versions=default days=default" + (" log=debug" if k % 2 else "")]
+            for a in range(nl):
+                # every listen address enforces the list
+                ops += ["dumpall", f"http@{a} GET snap - hyph=2 absent e", "dumpall", f"http@{a} GET gcv hyph=nil hyph=2 absent e", "dumpall",
+                        f"http@{a} POST av hyph=latest:2 hyph=2 history b:7,{a}", "dumpall", f"http@{a} POST as hyph=latest:2 hyph=2 snapshot b:8,{a}", "dumpall",
+                        f"http@{a} GET snap - hyph=1 absent e"]
             ops += ["dumpall", "httpk@0 GET snap - hyph=1 absent e", "dumpall", "httpk@0 GET snap - hyph=2 absent e", "dumpall",
                     "httpk@0 GET gcv hyph=nil hyph=2 absent e", "dumpall", "httpk@0 POST av hyph=latest:2 hyph=2 history b:7", "dumpall",
                     "httpk@0 POST as hyph=latest:2 hyph=2 snapshot b:8", "dumpall", "httpk@0 POST av hyph=latest:1 hyph=1 history b:3", "dumpall",
@@ -763,6 +774,10 @@ class C16(HttpProp):
                 continue
             h, r = HOp(o), HResp(ri)
             if not h.cid.isdigit():
+                if allow is not None and h.route in ("av", "gcv", "as", "snap") and r.status not in (400, 403, 404) and " xh=" not in o:
+                    pass
+                if allow is not None and h.route in ("av", "gcv", "as", "snap") and h.cid in ("absent", "unparse", "nontext") and not (400 <= r.status < 500):
+                    fails.append(f"op {i} `{o[:80]}`: a request that carries no usable X-Client-Id was answered {r.status} by a server restricted to a list of clients")
                 continue
             unlisted = allow is not None and h.cid not in allow
             if unlisted and h.route in ("av", "gcv", "as", "snap"):
@@ -1104,6 +1119,17 @@ def refusal_cases(rng, n=6):
         for q in sel:
             ops += ["dumpall", "rows", q, "dumpall", "rows"]
         out.append(Case(f"c18-http-{k}", ops, {"http_refusals": True}, mode="http"))
+    # the server is restricted to a list of clients: whatever else a request of an unlisted client carries (a second
+    # X-Client-Id line naming a listed client, the id of a listed client as a bearer token), it is refused and changes nothing
+    for k in range(max(2, n // 2)):
+        r = random.Random(rng.getrandbits(32))
+        ops = state_prefix(r, (1, 2)) + ["allow 1"] + (["reopen"] if k % 2 else [])
+        for u in ("2", "fresh"):
+            for x in ("", " xh=dupcid:1", " xh=bearer:1"):
+                for q in (f"http POST av hyph={'latest:2' if u == '2' else 'nil'} hyph={u} history b:6,{k}", f"http POST as hyph={'latest:2' if u == '2' else 'nil'} hyph={u} snapshot b:6,{k + 1}",
+                          f"http GET gcv hyph=nil hyph={u} absent e", f"http GET snap - hyph={u} absent e"):
+                    ops += ["dumpall", "rows", q + x, "dumpall", "rows"]
+        out.append(Case(f"c18-http-allow-{k}", ops, {"http_refusals": True, "listed": ["1"]}, mode="http"))
     # another connection holds the write lock for a few seconds while the request arrives (a backup, another
     # instance): the request waits and is served — or, if it is refused, nothing is changed, neither now nor
     # a moment later
@@ -1122,10 +1148,16 @@ def refusal_oracle(case, trace, backend):
             continue
         h, r = HOp(o), HResp(ri)
         mutating = r.status == 200 and h.route in ("av", "as")
-        if h.route in ("av", "as") and h.meth == "post" and not h.valid() and r.status == 200:
+        listed = case.meta.get("listed")
+        unl = listed is not None and h.cid.isdigit() and h.cid not in listed and any(x[0].startswith("allow ") for x in trace[:i])
+        if unl:
+            if r.status == 200:
+                fails.append(f"op {i} `{o[:90]}`: the request of a client the server's list does not name was answered 200")
+            mutating = False
+        elif h.route in ("av", "as") and h.meth == "post" and not h.valid() and r.status == 200:
             fails.append(f"op {i} `{o[:80]}`: a request that is to be refused (incomplete, empty or oversized body, wrong type) was answered 200")
         # an accepted AddSnapshot answers 200 as well as a declined one: only declined ones are listed in these cases
-        if h.route == "as" and r.status == 200:
+        if h.route == "as" and r.status == 200 and not unl:
             mutating = not (h.seg == "0" or not h.valid())
             if h.seg != "0":
                 continue
